@@ -1,5 +1,6 @@
 import QuantemModel.Core.Proto
 import QuantemModel.Model.Config
+import QuantemModel.Model.ConfigHistory
 open Lean QuantemModel QuantemModel.Proto QuantemModel.Config
 
 namespace DrvC19
@@ -78,22 +79,22 @@ def step (st : St) (j : Json) : St × Json :=
         let ds ← (← arrField j "defaults").toList.mapM dictOfJson
         pure (reply { env := env, s := { config := cfg, defaults := ds } } (okJson Json.null))
     | "set" =>
-        let items ← allItems j
-        let (cfg, _, e) := setItems st.env st.s.config [] items
-        let st' := { st with s := { st.s with config := cfg } }
+        -- state transition and raised exception are those of the history model (`hstep`)
+        let op := HOp.set (← allItems j)
+        let e := hstepErr st.env st.s op
+        let st' := { st with s := hstep st.env st.s op }
         pure (reply st' (match e with | .none => okJson Json.null | some e => errJson (errName e)))
     | "with" =>
         -- `with set(...): pass` : apply, then restore on exit (only reached if __init__ succeeded)
         let items ← allItems j
-        let (cfg, rec_, e) := setItems st.env st.s.config [] items
+        let op := HOp.withBlock items
+        let e := hstepErr st.env st.s op
+        let st' := { st with s := hstep st.env st.s op }
         match e with
-        | some e =>
-            let st' := { st with s := { st.s with config := cfg } }
-            pure (reply st' (errJson (errName e)))
+        | some e => pure (reply st' (errJson (errName e)))
         | .none =>
-            let cfg' := exitCtx cfg rec_
-            let st' := { st with s := { st.s with config := cfg' } }
-            pure (reply st' (okJson (Json.mkObj [("inside", treeToJson (.node cfg))])))
+            let inside := (setItems st.env st.s.config [] items).1
+            pure (reply st' (okJson (Json.mkObj [("inside", treeToJson (.node inside))])))
     | "get" =>
         let key ← strField j "key"
         let r := get st.s.config (splitDots key.toList)
@@ -104,12 +105,12 @@ def step (st : St) (j : Json) : St × Json :=
               | .error _ => errJson (errName e)
         pure (reply st out)
     | "update_defaults" =>
-        let new ← dictOfJson (← field j "new")
-        let (s', e) := updateDefaultsP st.env st.s new
-        pure (reply { st with s := s' } (match e with | .none => okJson Json.null | some e => errJson (errName e)))
+        let op := HOp.updateDefaults (← dictOfJson (← field j "new"))
+        let e := hstepErr st.env st.s op
+        pure (reply { st with s := hstep st.env st.s op } (match e with | .none => okJson Json.null | some e => errJson (errName e)))
     | "refresh" =>
-        let (s', e) := refreshP st.env st.s
-        pure (reply { st with s := s' } (match e with | .none => okJson Json.null | some e => errJson (errName e)))
+        let e := hstepErr st.env st.s HOp.refresh
+        pure (reply { st with s := hstep st.env st.s HOp.refresh } (match e with | .none => okJson Json.null | some e => errJson (errName e)))
     | "validate_device" =>
         let v ← treeOfJson (← field j "v")
         pure (reply st (match validateDevice st.env v with
